@@ -5,8 +5,8 @@ from ..extra_c10 import extra_run, matches_known
 globals().update(
     make(
         pid="C10",
-        props=["JaqalProofs/Props/C10.lean", "JaqalProofs/Props/ParsedC10.lean", "JaqalProofs/Props/ParsedEx.lean", "JaqalProofs/Props/C10Text.lean"],
-        targets=["JaqalProofs.Props.C10", "JaqalProofs.Props.ParsedC10", "JaqalProofs.Props.ParsedEx", "JaqalProofs.Props.C10Text"],
+        props=["JaqalProofs/Props/C10.lean", "JaqalProofs/Props/ParsedC10.lean", "JaqalProofs/Props/ParsedEx.lean", "JaqalProofs/Props/C10Text.lean", "JaqalProofs/Props/C10Text2.lean"],
+        targets=["JaqalProofs.Props.C10", "JaqalProofs.Props.ParsedC10", "JaqalProofs.Props.ParsedEx", "JaqalProofs.Props.C10Text", "JaqalProofs.Props.C10Text2"],
         extra_run=extra_run,
         known_matcher=matches_known,
         diffs=[("harness.agents.c10_diff", 500, 1500), ("harness.agents.c10_scale", 88, 300), ("harness.agents.c10_traps", 350, 2000)],
